@@ -300,6 +300,8 @@ class TypedNode(Node):
                 pass
             if data_id and data_id != source_node._data_id:
                 raise UniqueConstraintError(f"data_id conflict: {source_node}")
+            # Keep a custom data_id (as `_add_from()` does for the descendants)
+            data_id = source_node._data_id
 
             # If creating an inherited node, use the parent class as constructor
             child_class = child.__class__
